@@ -176,9 +176,35 @@ type ReqRec struct {
 	excused bool // its reply was delivered under a foreign RequestId (finding F8)
 }
 
+func (d *DataSpec) String() string {
+	if d == nil {
+		return ""
+	}
+	s := " data=" + d.Op
+	switch d.Op {
+	case "set", "append", "push":
+		s += fmt.Sprintf("(%q)", d.Val)
+	case "incr", "shift", "pop":
+		s += fmt.Sprintf("(%d)", d.Num)
+	case "pipeline":
+		s += "["
+		for i := range d.Pipe {
+			s += d.Pipe[i].String()
+		}
+		s += "]"
+	}
+	if d.Prop != nil {
+		s += "+prop"
+	}
+	if d.Array {
+		s += "+array"
+	}
+	return s
+}
+
 func (r *ReqRec) String() string {
-	return fmt.Sprintf("c%d#%d{cmd=%d db=%d key=%d lid=%d flag=%#x to=%d/%#x ex=%d/%#x cnt=%d rc=%d}", r.Client, r.Idx, r.Op.Cmd, r.Op.Db, r.Op.Key, r.Op.Lid,
-		r.Op.Flag, r.Op.Timeout, r.Op.TFlag, r.Op.Expried, r.Op.EFlag, r.Op.Count, r.Op.Rcount)
+	return fmt.Sprintf("c%d#%d{cmd=%d db=%d key=%d lid=%d flag=%#x to=%d/%#x ex=%d/%#x cnt=%d rc=%d%s}", r.Client, r.Idx, r.Op.Cmd, r.Op.Db, r.Op.Key, r.Op.Lid,
+		r.Op.Flag, r.Op.Timeout, r.Op.TFlag, r.Op.Expried, r.Op.EFlag, r.Op.Count, r.Op.Rcount, r.Op.Data.String())
 }
 
 type History struct {
